@@ -2,8 +2,10 @@ package props
 
 import (
 	"fmt"
+	"reflect"
 	"testing"
 
+	"github.com/hashicorp/go-argmapper"
 	"github.com/hashicorp/go-argmapper/verifharness/engine"
 )
 
@@ -113,7 +115,48 @@ func genC04(g engine.G) *engine.Case {
 	o.AllowOnce = true
 	o.ErrP = 75
 	o.FailP = 35
-	sc := engine.GenDerivable(g, o, true, true, 2, 4)
+	deep := g.Pct(55)
+	if deep {
+		o.FailP = 0
+	}
+	var sc *engine.Scenario
+	if deep {
+		// deep chains: every parameter is produced through >= 1 converter
+		pal := engine.GenPalette(g, true, true)
+		b := engine.NewBuilder(g, pal, o)
+		b.Sc.Target = engine.GenTarget(g, pal, 2, o)
+		for _, p := range b.Sc.Target.In {
+			b.Produce(p, g.Int(2, 4), 2)
+		}
+		b.ShuffleInputs()
+		sc = b.Sc
+	} else {
+		sc = engine.GenDerivable(g, o, true, true, 2, 4)
+	}
+	if deep {
+		// exactly one failing converter, preferably one that consumes the
+		// output of another converter (so that it fails after a success)
+		var cands []int
+		for i := range sc.Convs {
+			if len(sc.Convs[i].In) > 0 {
+				cands = append(cands, i)
+			}
+		}
+		if len(cands) == 0 {
+			for i := range sc.Convs {
+				cands = append(cands, i)
+			}
+		}
+		if len(cands) > 0 {
+			i := engine.Pick(g, cands)
+			if g.Pct(70) {
+				// converters are created target-first: the first one with an
+				// input is the last to execute on its chain
+				i = cands[0]
+			}
+			sc.Convs[i].HasErr, sc.Convs[i].Fail = true, true
+		}
+	}
 	if g.Pct(25) && sc.Target.HasErr {
 		sc.Target.Fail = true
 	}
@@ -359,6 +402,9 @@ func TestC07(t *testing.T) { runProp(t, "C07", genC07) }
 
 // evalC10: Convert(T, args) agrees with calling an identity function func(T) T.
 func evalC10(c *engine.Case) engine.Verdict {
+	if c.Note == "exotic" {
+		return evalC10X(c)
+	}
 	var v engine.Verdict
 	sc := c.Sc
 	engine.ScenarioClasses(&v, sc)
@@ -510,4 +556,164 @@ func genC10(g engine.G) *engine.Case {
 	return &engine.Case{Sc: b.Sc, Reps: 3}
 }
 
-func TestC10(t *testing.T) { runProp(t, "C10", genC10) }
+func TestC10(t *testing.T) { runProp(t, "C10", genC10all) }
+
+// genC10all: 75% token-universe scenarios, 25% exotic target types.
+func genC10all(g engine.G) *engine.Case {
+	if g.Pct(25) {
+		c := genC10X(g)
+		c.Note = "exotic"
+		return c
+	}
+	return genC10(g)
+}
+
+// ---------------------------------------------------------------------------
+// C10, exotic target types: a pure differential between Convert and a call of
+// an identity function, for type shapes outside the token universe (defined
+// vs. unnamed types with the same underlying type, error, marker structs,
+// pointers, interface{}).
+
+type exInts []int
+type exMap map[string]int
+type exFn func() int
+type exStr string
+type exMarker struct {
+	argmapper.Struct
+	A int
+	B string `argmapper:",typeOnly"`
+}
+
+// C10XCase selects a target type, the supplied values and converters by index.
+type C10XCase struct {
+	Target int   `json:"target"`
+	Inputs []int `json:"inputs"`
+	Convs  []int `json:"convs"`
+}
+
+var exTypes = []reflect.Type{
+	reflect.TypeOf([]int(nil)), reflect.TypeOf(exInts(nil)), reflect.TypeOf(map[string]int(nil)), reflect.TypeOf(exMap(nil)),
+	reflect.TypeOf((func() int)(nil)), reflect.TypeOf(exFn(nil)), reflect.TypeOf(""), reflect.TypeOf(exStr("")),
+	reflect.TypeOf((*error)(nil)).Elem(), reflect.TypeOf((*MyErr)(nil)), reflect.TypeOf(exMarker{}), reflect.TypeOf(&exMarker{}),
+	reflect.TypeOf((*interface{})(nil)).Elem(), reflect.TypeOf(0), reflect.TypeOf((*fmt.Stringer)(nil)).Elem(),
+}
+
+func exValues() []interface{} {
+	return []interface{}{
+		[]int{1, 2}, exInts{3}, map[string]int{"a": 1}, exMap{"b": 2}, func() int { return 7 }, exFn(func() int { return 8 }),
+		"str", exStr("xs"), error(&MyErr{N: 5}), &MyErr{N: 6}, exMarker{A: 1, B: "b"}, &exMarker{A: 2}, 42, 3.5,
+	}
+}
+
+var exConvs = []interface{}{
+	func(s string) int { return len(s) },
+	func(i int) string { return fmt.Sprint(i) },
+	func(i int) []int { return []int{i} },
+	func(x exInts) []int { return []int(x) },
+	func(s string) (exStr, error) { return exStr(s), nil },
+	func(i int) error { return &MyErr{N: i} },
+	func(s exStr) map[string]int { return map[string]int{string(s): 1} },
+}
+
+func init() { evaluators["C10X"] = evalC10X }
+
+func evalC10X(c *engine.Case) engine.Verdict {
+	var v engine.Verdict
+	var x C10XCase
+	if err := c.GetX(&x); err != nil {
+		v.Failf("bad case: %v", err)
+		return v
+	}
+	typ := exTypes[x.Target%len(exTypes)]
+	vals := exValues()
+	build := func() []argmapper.Arg {
+		var args []argmapper.Arg
+		for _, i := range x.Inputs {
+			args = append(args, argmapper.Typed(vals[i%len(vals)]))
+		}
+		for _, i := range x.Convs {
+			args = append(args, argmapper.Converter(exConvs[i%len(exConvs)]))
+		}
+		return append(args, engine.Quiet())
+	}
+	v.Class("exotic-target:" + typ.String())
+	reps := c.Reps
+	if reps <= 0 {
+		reps = 1
+	}
+	for rep := 0; rep < reps && v.Fail == ""; rep++ {
+		var cv, iv interface{}
+		var cerr, ierr error
+		var o engine.Outcome
+		engine.Protect(&o, func() { cv, cerr = argmapper.Convert(typ, build()...) })
+		if o.Panic != "" {
+			v.Class("panic")
+			return v
+		}
+		ft := reflect.FuncOf([]reflect.Type{typ}, []reflect.Type{typ}, false)
+		idf, err := argmapper.NewFunc(reflect.MakeFunc(ft, func(a []reflect.Value) []reflect.Value { return a }).Interface())
+		if err != nil {
+			v.Class("identity-func-rejected")
+			return v
+		}
+		engine.Protect(&o, func() {
+			res := idf.Call(build()...)
+			ierr = res.Err()
+			if ierr == nil && res.Len() == 1 {
+				iv = res.Out(0)
+			} else if ierr == nil {
+				ierr = fmt.Errorf("identity call returned %d values", res.Len())
+			}
+		})
+		if o.Panic != "" {
+			v.Class("panic")
+			return v
+		}
+		if (cerr == nil) != (ierr == nil) {
+			v.Failf("Convert(%v) succeeded=%v (err %.80v) but calling func(%v) %v succeeded=%v (err %.80v)", typ, cerr == nil, cerr, typ, typ, ierr == nil, ierr)
+			return v
+		}
+		if cerr != nil {
+			if cv != nil {
+				v.Failf("Convert(%v) returned an error together with the non-nil value %#v", typ, cv)
+			}
+			if rep == 0 {
+				v.Class("both-fail")
+			}
+			continue
+		}
+		if rep == 0 {
+			v.Class("both-succeed")
+		}
+		if cv == nil || !reflect.TypeOf(cv).AssignableTo(typ) {
+			v.Failf("Convert(%v) returned %#v, which is not assignable to the target type", typ, cv)
+			return v
+		}
+		// the scenarios are small enough to be route-deterministic unless two
+		// inputs/converters produce the same type: compare values when the
+		// candidates are unique (functions cannot be compared)
+		if reflect.TypeOf(cv).Kind() != reflect.Func && len(x.Inputs)+len(x.Convs) <= 1 && !reflect.DeepEqual(cv, iv) {
+			v.Failf("Convert(%v) returned %#v, the identity call was injected with %#v", typ, cv, iv)
+		}
+	}
+	v.NonTrivial = len(x.Inputs)+len(x.Convs) > 0
+	return v
+}
+
+func genC10X(g engine.G) *engine.Case {
+	var x C10XCase
+	x.Target = g.Int(0, len(exTypes)-1)
+	for i, n := 0, g.Int(0, 3); i < n; i++ {
+		x.Inputs = append(x.Inputs, g.Int(0, 13))
+	}
+	if g.Pct(60) && len(x.Inputs) > 0 {
+		// bias: an input "near" the target type (same index or its neighbour)
+		x.Inputs[0] = x.Target/2*2 + g.Int(0, 1)
+	}
+	for i, n := 0, g.Int(0, 2); i < n; i++ {
+		x.Convs = append(x.Convs, g.Int(0, len(exConvs)-1))
+	}
+	c := &engine.Case{Reps: 2}
+	c.SetX(&x)
+	return c
+}
